@@ -8,11 +8,19 @@
 //!                H lat lon range    start a tracker history
 //!                A <hex>            Airplanes::action
 //!                D                  dump the tracker
+//!                R lat lon range    the receiver moved / the range setting changed (no reset)
+//!                W <ns>             let (virtual) time pass: std builds see the clock advance,
+//!                                   the alloc-only build has no clock - the states must still agree
 
 use adsb_deku::{cpr, Altitude, CPRFormat, Frame};
 use rsadsb_common::Airplanes;
 use std::io::{BufRead, Write};
 use vref::dbg::{self, Kind, Node};
+
+#[path = "../../vmon/src/vclock.rs"]
+mod vclock;
+
+const BASE_NS: i128 = 1_790_000_000 * 1_000_000_000;
 
 /// Debug text with every `last_time` field removed (it only exists in std builds and holds wall-clock time).
 fn masked(s: &str) -> String {
@@ -145,6 +153,7 @@ fn main() {
     let mut range = 500.0f64;
     let mut hist = 0u64;
     let mut step = 0u64;
+    let mut now_ns: i128 = BASE_NS;
     #[allow(unused_mut, unused_variables)]
     let (mut fails, mut done) = (0u64, 0u64);
     for line in std::io::BufReader::new(f).lines() {
@@ -181,6 +190,21 @@ fn main() {
                 range = v[2];
                 hist += 1;
                 step = 0;
+                now_ns = BASE_NS;
+                vclock::set_ns(now_ns);
+            }
+            Some("R") => {
+                let v: Vec<f64> = it.filter_map(|x| x.parse().ok()).collect();
+                if v.len() == 3 {
+                    rx = (v[0], v[1]);
+                    range = v[2];
+                }
+            }
+            Some("W") => {
+                if let Some(d) = it.next().and_then(|x| x.parse::<i128>().ok()) {
+                    now_ns += d;
+                    vclock::set_ns(now_ns);
+                }
             }
             Some("A") => {
                 let hex = it.next().unwrap_or("");
